@@ -223,6 +223,11 @@ class Gen:
             self.features.add('join:' + kind)
             if kind == 'CROSS JOIN':
                 frm += f' CROSS JOIN {self.qual(tj)} AS {al}'
+                if r.random() < 0.4:
+                    # (MySQL and SQLite read CROSS JOIN .. ON as an inner join)
+                    prev = r.choice(scope)
+                    frm += f' ON {prev[0]}.id = {al}.id'
+                    self.features.add('cross-join-with-on')
             else:
                 prev = r.choice(scope)
                 keyl = r.choice(['id', 'a' if prev[1] != 't3' else 'x'])
